@@ -125,6 +125,18 @@ class Index:
             from . import inline
             self.inlined = inline.apply(self)    # expand call edges that are new relative to the frozen baseline call graph
 
+    def expanded_helper(self, f):
+        """f is a helper that did not exist in the baseline call graph and every call of it found was expanded into its caller: rules about
+        "which function may do X" judge it at those call sites, not as a function of its own."""
+        try:
+            from . import inline
+            table = inline.load_table()
+        except Exception:
+            return False
+        if table is None or f.fq in table["calls"]:
+            return False
+        return any(callee == f.fq for caller, callee, line in self.inlined_sites)
+
     # ---------------------------------------------------------------- build
     def _index_module(self, m):
         imps = {}
